@@ -1472,11 +1472,13 @@ class GattServer(GattLayer):
                 if UUID(request.type_uuid) != attr.type_uuid:
                     continue
 
-                # If attribute is a characteristic value or a descriptor, we make sure the characteristic
+                # If attribute is a characteristic value, we make sure the characteristic
                 # is readable before matching its value with the request value
-                if isinstance(attr, CharacteristicValue) or isinstance(attr, Descriptor):
-                    # Find characteristic end handle
-                    if attr.value == request.attr_data:
+                if isinstance(attr, CharacteristicValue):
+                    if self.read_access_error(attr.characteristic) is None and attr.value == request.value:
+                        matching_attrs.append((handle, attr.characteristic.end_handle))
+                elif isinstance(attr, Descriptor):
+                    if attr.value == request.value:
                         matching_attrs.append((handle, attr.characteristic.end_handle))
                 else:
                     # PrimaryService and SecondaryService are grouping types
@@ -1484,7 +1486,8 @@ class GattServer(GattLayer):
                         if attr.value == request.value:
                             matching_attrs.append((handle, attr.end_handle))
                     else:
-                        if attr.value == request.value:
+                        # Declarations are matched on their own value
+                        if attr.payload() == request.value:
                             matching_attrs.append((handle, handle))
 
             # If we have found at least one attribute that matches the request, return a
